@@ -307,6 +307,39 @@ int32 parseClientHelloExtensions(ssl_t *ssl, unsigned char **cp, unsigned short 
         }
     }
 
+# ifdef USE_STATELESS_SESSION_TICKETS
+    /* RFC 7627, 5.3: a session established without the extended master
+       secret must not be resumed by a ClientHello that carries the
+       extension.  matrixUnlockSessionTicket left the ticket's own setting
+       in require_extended_master_secret, but the extension may only have
+       been parsed after the ticket.  Fall back to a full handshake, as
+       matrixResumeSession does for cached sessions. */
+    if ((ssl->flags & SSL_FLAGS_RESUMED) && ssl->sid != NULL &&
+        ssl->sid->sessionTicketState == SESS_TICKET_STATE_USING_TICKET &&
+        ssl->extFlags.require_extended_master_secret == 0 &&
+        ssl->extFlags.extended_master_secret == 1)
+    {
+        psTraceInfo("Ticket without EMS presented with EMS: full handshake\n");
+        ssl->flags &= ~SSL_FLAGS_RESUMED;
+        Memset(ssl->sec.masterSecret, 0x0, SSL_HS_MASTER_SIZE);
+        Memset(ssl->sid->masterSecret, 0x0, SSL_HS_MASTER_SIZE);
+        ssl->sid->cipherId = 0;
+        if (ssl->sessionIdLen > 0)
+        {
+            Memset(ssl->sessionId, 0, SSL_MAX_SESSION_ID_SIZE);
+            ssl->sessionIdLen = 0;
+        }
+        if (ssl->keys && ssl->keys->sessTickets)
+        {
+            ssl->sid->sessionTicketState = SESS_TICKET_STATE_RECVD_EXT;
+        }
+        else
+        {
+            ssl->sid->sessionTicketState = SESS_TICKET_STATE_INIT;
+        }
+    }
+# endif
+
     /* Handle the extensions that were missing or not what we wanted */
     if (ssl->extFlags.require_extended_master_secret == 1 &&
         ssl->extFlags.extended_master_secret == 0)
